@@ -41,8 +41,9 @@
 (*                                                                         *)
 (* Named deviations (modelled as coded, see also Diag.tla):                *)
 (*  Leaky          mode flags in this set are NOT reset between files or   *)
-(*                 passes.  Pinned tree: {"dotted"} (DOTTEDSTRUCTS is      *)
-(*                 missing from AssembleFile_InitPass); ideal: {}.         *)
+(*                 passes.  As originally pinned: {"dotted"} (DOTTEDSTRUCTS *)
+(*                 was missing from AssembleFile_InitPass, repaired by     *)
+(*                 proposed_fixes/C18-dottedstructs-reset.diff); now: {}.  *)
 (*  StaleUntilInitPass  FirstIfSave, FirstOutputTag, SectionStack,         *)
 (*                 StructStack keep their (dangling) values from the end   *)
 (*                 of one file until AssembleFile_InitPass of the next;    *)
